@@ -34,6 +34,20 @@
 (* FixCursor, Fix5xx); with all three the design check passes, with none the  *)
 (* model is the code as it stands and TLC's counterexamples are leads that    *)
 (* the harness replays on the real client.                                    *)
+(*                                                                            *)
+(* Two budgets bound the client, both set by MaxRetries ("the maximum number  *)
+(* of times to attempt a reconnect before giving up", default 5) and both     *)
+(* explicit state here: `att`, the attempts of ONE reconnection (connectSSE:  *)
+(* every reconnection has MaxRetries attempts of its own, whatever happened   *)
+(* to the stream before), and `rwp`, the resumptions in a row that were       *)
+(* answered 200 but brought no new event id across (handleSSE: more than      *)
+(* MaxRetries of them and the stream is given up).  The environment crosses   *)
+(* them freely: per attempt it answers refused / a transient status / 200,    *)
+(* and a 200 body brings progress or none - and, independently, may open with *)
+(* an event that carries the SSE `retry:` field (RetrySet: alone, with an     *)
+(* event name as the SDK's server writes it when it closes a stream on        *)
+(* purpose, or with the id the client resumed from).  Such an event brings no *)
+(* NEW id across: whatever fields a body carries, only a new id is progress.  *)
 EXTENDS Integers, Sequences, FiniteSets, TLC
 
 None == -1
@@ -50,6 +64,9 @@ Bogus == -2
 (*          event whose last content line had been transmitted when this body *)
 (*          ended cleanly (only its blank line is missing);                   *)
 (*          knd: "err" | "eof" | "none" (not cut)                             *)
+(*          rt: the `retry:` event the body opened with ("none" | "bare" |    *)
+(*          "named" | "idd", see RetryKinds) - recorded, never judged: c and  *)
+(*          d already say which ids came across                               *)
 (* o.recon  Seq([sent, outs])      reconnect i follows body i: the cursor in  *)
 (*          its Last-Event-ID header, the answers the attempts got: "ok"      *)
 (*          (200 + a body), "terr" (transport error) or the HTTP status as a  *)
@@ -79,27 +96,37 @@ Resumable(o) == o.ids = "all" /\ Len(o.bodies) >= 1 /\ o.bodies[1].c # None
 \* body i was cut without a single new id'd event having come across
 NoProg(o, i) == /\ o.bodies[i].knd # "none"
                 /\ o.bodies[i].c = (IF i = 1 THEN None ELSE o.bodies[i - 1].c)
-\* the retry budget, read conservatively: fewer than mr failed attempts per reconnect,
-\* no answer that says "gone" (404) or "bad request", fewer than mr fruitless bodies in a row
-WithinBudget(o) ==
-  /\ \A i \in 1..Len(o.recon) :
+\* The two budgets the SDK documents, both given by MaxRetries ("the maximum number of times to attempt a reconnect
+\* before giving up"): the connection attempts ONE reconnection may make, and the resumptions in a row that may be
+\* answered 200 without bringing a new id across.  They are separate budgets: neither is charged to the other, and the
+\* first is per reconnection - the stream's history of fruitless resumptions does not shorten it.
+AttemptBudget(o) == o.mr
+NoProgressBudget(o) == o.mr
+\* ... read conservatively: fewer failed attempts than AttemptBudget in every reconnect (so the last attempt the budget
+\* allows is answered 200), no answer that says "gone" (404) or "bad request", fewer fruitless bodies in a row than
+\* NoProgressBudget
+AttemptsWithinBudget(o) ==
+  \A i \in 1..Len(o.recon) :
         LET outs == o.recon[i].outs IN
         /\ \A j \in 1..Len(outs) : outs[j] \in Transient \cup {"ok"}
-        /\ Cardinality({j \in 1..Len(outs) : outs[j] \in Transient}) < o.mr
-  /\ ~\E i \in 1..Len(o.bodies) :
-        /\ i + o.mr - 1 <= Len(o.bodies)
-        /\ \A j \in i..(i + o.mr - 1) : NoProg(o, j)
+        /\ Cardinality({j \in 1..Len(outs) : outs[j] \in Transient}) < AttemptBudget(o)
+ProgressWithinBudget(o) ==
+  ~\E i \in 1..Len(o.bodies) :
+        /\ i + NoProgressBudget(o) - 1 <= Len(o.bodies)
+        /\ \A j \in i..(i + NoProgressBudget(o) - 1) : NoProg(o, j)
+WithinBudget(o) == AttemptsWithinBudget(o) /\ ProgressWithinBudget(o)
 
 \* the budget also bounds the client: after mr + 1 bodies IN A ROW that brought nothing new across it has
 \* given up ("retries exhausted without progress": it makes progress or gives up, it never retries for ever).
 \* Read leniently, like the cursors: an event whose content was complete when a body ended cleanly (d) may have
-\* counted as progress.
+\* counted as progress.  Nothing else is progress: a body that carries a `retry:` field, an event name, or again the id
+\* the client resumed from has brought nothing NEW across (the bodies' field rt is not consulted).
 Fruitless(o, i) == /\ o.bodies[i].knd # "none"
                    /\ o.bodies[i].d = (IF i = 1 THEN None ELSE o.bodies[i - 1].c)
 BoundedRetries(o) ==
   ~\E i \in 1..Len(o.bodies) :
-        /\ i + o.mr + 1 <= Len(o.bodies)
-        /\ \A j \in i..(i + o.mr + 1) : Fruitless(o, j)
+        /\ i + NoProgressBudget(o) + 1 <= Len(o.bodies)
+        /\ \A j \in i..(i + NoProgressBudget(o) + 1) : Fruitless(o, j)
 
 \* a sequence of delivered indices is fine: only messages of the stream, each at most once,
 \* in stream order; without gaps whenever the client had the means to resume
@@ -126,7 +153,11 @@ Complete(o) ==
   IF o.kind = "post"
   THEN o.outcome = "resp" /\ o.respok /\ Good(o.rd) = Iota(o.M) /\ Good(o.notes) = Iota(o.M - 1)
   ELSE o.outcome = "open" /\ Good(o.rd) = Iota(o.M) /\ Good(o.notes) = Iota(o.M)
-RealResponseWithinBudget(o) == (NoCut(o) \/ (Resumable(o) /\ WithinBudget(o))) => Complete(o)
+\* "within budgets the client never fails": if neither budget is exhausted and the server finally serves the rest
+\* (it does: a run of the scripted server ends with whole bodies unless the server is stuck, and then ProgressWithinBudget
+\* is false), the pending call completes with its own response and every message is delivered exactly once, in order
+WithinBudgetsNeverFails(o) == (Resumable(o) /\ WithinBudget(o)) => Complete(o)
+RealResponseWithinBudget(o) == (NoCut(o) => Complete(o)) /\ WithinBudgetsNeverFails(o)
 
 \* whatever happened, the pending call has returned once everything has settled
 CleanFailure(o) == o.outcome # "hang"
@@ -146,6 +177,7 @@ CONSTANTS KindSet,     \* subset of {"post", "sa"}
           ClassSet,    \* position classes the environment may cut at (see ClassesOf; "bnd" = event boundary)
           AnswerSet,   \* what a reconnect attempt may be answered with: subset of {"terr", "ok"} \cup Statuses
           TailSet,     \* subset of {"good", "stuck"}: what the server does once MaxCuts bodies have been cut (see Body)
+          RetrySet,    \* subset of RetryKinds: the `retry:` event a body may open with
           FixScanner,  \* at end of input an incomplete event is discarded
           FixCursor,   \* the resume cursor survives from one body to the next
           Fix5xx       \* a transient status on reconnect is retried like a transport error
@@ -160,6 +192,16 @@ Shapes == {[ids |-> "all", prime |-> "first"], [ids |-> "all", prime |-> "every"
 Statuses == TransientStatus \cup {"404", "403", "501"}
 ASSUME AnswerSet \subseteq {"terr", "ok"} \cup Statuses
 ASSUME TailSet \subseteq {"good", "stuck"}
+
+\* A body may open with one complete data-less event that carries the SSE `retry:` field (the delay the server asks for
+\* before the next reconnection); it is not one of the stream's elements and is never cut:
+\*   bare   retry: N                                   (no event name, no id)
+\*   named  event: close / retry: N / data:            (what the SDK's server writes for CloseSSEStream{RetryAfter})
+\*   idd    event: close / id: <from> / retry: N / data:   the id of the position the body starts after - the id the
+\*          client resumed with (like a priming event: not a NEW id); only on streams with ids
+\* A body cut at offset 0 that opens with one of them is "200 with `retry:` only".
+RetryKinds == {"none", "bare", "named", "idd"}
+ASSUME RetrySet \subseteq RetryKinds
 
 VARIABLES
   cfg,       \* [kind, ids, prime, scheme, M, mr, tail]
@@ -211,19 +253,24 @@ Aliases(k) == IF k < 1 THEN {}
               ELSE IF cfg.scheme = "nested" THEN 1..(k - 1)
               ELSE IF k >= 10 THEN {k \div 10} ELSE {}
 
-NoCutRec == [n |-> 0, cls |-> "none", knd |-> "none", al |-> None]
+NoCutRec == [n |-> 0, cls |-> "none", knd |-> "none", al |-> None, rt |-> "none"]
 \* forced end of a POST body that does not contain the response any more: the server has
 \* nothing to send and closes
-EndRec(es) == [n |-> Len(es), cls |-> "bnd", knd |-> "eof", al |-> None]
+EndRec(es) == [n |-> Len(es), cls |-> "bnd", knd |-> "eof", al |-> None, rt |-> "none"]
 
+RtChoices == {r \in RetrySet : r = "idd" => cfg.ids = "all"}
 CutChoices(es) ==
-  {[n |-> n, cls |-> "bnd", knd |-> k, al |-> None] :
+  {[n |-> n, cls |-> "bnd", knd |-> k, al |-> None, rt |-> r] :
        n \in (IF "bnd" \in ClassSet THEN 0..(IF cfg.kind = "post" THEN Len(es) - 1 ELSE Len(es)) ELSE {}),
-       k \in {"err", "eof"}}
-  \cup UNION {UNION {{[n |-> n, cls |-> c, knd |-> k, al |-> a] :
-                         k \in {"err", "eof"},
+       k \in {"err", "eof"}, r \in RtChoices}
+  \cup UNION {UNION {{[n |-> n, cls |-> c, knd |-> k, al |-> a, rt |-> r] :
+                         k \in {"err", "eof"}, r \in RtChoices,
                          a \in (IF c = "id" THEN {Bogus} \cup Aliases(es[n + 1].cur) ELSE {None})} :
                      c \in ClassesOf(es[n + 1]) \cap ClassSet} : n \in 0..(Len(es) - 1)}
+\* a body served whole, with or without the opening `retry:` event
+WholeChoices == {[NoCutRec EXCEPT !.rt = r] : r \in RtChoices}
+\* the id an opening "idd" event carries: the position the body starts after
+HeadCurs(cut) == IF cut.rt = "idd" THEN {from} ELSE {}
 
 \* what processStream makes of a body cut like this
 \*   last: lastEventID at the end; add: messages pushed; end: "resp" (own response seen),
@@ -232,7 +279,7 @@ Scan(es, cut, start) ==
   LET n == IF cut.cls = "none" THEN Len(es) ELSE cut.n
       p == IF Len(es) > 0 /\ es[1].msg = 0 THEN 1 ELSE 0
       k == IF n > p THEN n - p ELSE 0                                  \* complete message events
-      curs == {es[i].cur : i \in 1..n} \ {None}
+      curs == ({es[i].cur : i \in 1..n} \cup HeadCurs(cut)) \ {None}
       l0 == IF curs = {} THEN start ELSE MaxOf(curs)
       add0 == [i \in 1..k |-> from + i]
       partial == cut.cls \notin {"none", "bnd"} /\ cut.knd = "eof" /\ ~FixScanner
@@ -256,10 +303,10 @@ Scan(es, cut, start) ==
 BodyRec(es, cut) ==
   LET n == IF cut.cls = "none" THEN Len(es) ELSE cut.n
       cPrev == IF bodies = <<>> THEN None ELSE bodies[Len(bodies)].c
-      c == MaxOf({cPrev} \cup ({es[i].cur : i \in 1..n} \ {None}))
+      c == MaxOf({cPrev} \cup (({es[i].cur : i \in 1..n} \cup HeadCurs(cut)) \ {None}))
       d == IF cut.cls = "datafull" /\ cut.knd = "eof" /\ es[n + 1].cur # None THEN MaxOf({c, es[n + 1].cur}) ELSE c
   IN [from |-> from, primed |-> primed, n |-> cut.n, cls |-> cut.cls, knd |-> cut.knd, al |-> cut.al,
-      c |-> c, d |-> d]
+      rt |-> cut.rt, c |-> c, d |-> d]
 
 Fail == failed' = TRUE /\ outcome' = (IF cfg.kind = "post" THEN "err" ELSE "failed")
 
@@ -275,13 +322,14 @@ Body ==
   /\ LET es == Elems(from, primed)
          ended == cfg.kind = "post" /\ from >= cfg.M
          \* a stuck server: once the scripted cuts are used up, if the last body ended at offset 0 so does
-         \* every later one, for ever (a proxy that accepts the GET with 200 and closes; not counted in ncut's bound)
+         \* every later one, for ever (a proxy that accepts the GET with 200 and closes - or a server that answers every
+         \* resumption with the same `retry:` event and nothing else; not counted in ncut's bound)
          lb == bodies[Len(bodies)]
          stuck == /\ cfg.tail = "stuck" /\ bodies # <<>>
                   /\ lb.knd # "none" /\ lb.cls = "bnd" /\ lb.n = 0
          choices == IF ended THEN {EndRec(es)}
-                    ELSE IF ncut < MaxCuts THEN CutChoices(es) \cup {NoCutRec}
-                    ELSE IF stuck THEN {[n |-> 0, cls |-> "bnd", knd |-> lb.knd, al |-> None]}
+                    ELSE IF ncut < MaxCuts THEN CutChoices(es) \cup WholeChoices
+                    ELSE IF stuck THEN {[n |-> 0, cls |-> "bnd", knd |-> lb.knd, al |-> None, rt |-> lb.rt]}
                     ELSE {NoCutRec}
      IN \E cut \in choices :
         LET start == IF FixCursor THEN prev ELSE None
